@@ -574,7 +574,7 @@ func (this *Dataset) searchPartitionsOnNode(ctx context.Context, nodeId uint64, 
 		return
 	}
 
-	result := make(index.SearchResult, 0, k)
+	result := make(index.SearchResult, 0)
 	for {
 		item, err := stream.Recv()
 		if err == io.EOF {
